@@ -33,6 +33,9 @@ M = [
  ("C04-load-drops-first", "C04", "graph/search/search_all.go", "\titer.first = s.First\n", "\titer.first = s.First && len(s.CurrentPath) > 0\n"),
  ("C19-sort-package-scratch", "C19", "ints/int_sort.go", "func Sort(a []int) {\n\tn := len(a)\n\tquickSort(a, 0, n, maxDepth(n))\n}", "var scratch []int\n\nfunc Sort(a []int) {\n\tn := len(a)\n\tif cap(scratch) < n {\n\t\tscratch = make([]int, n)\n\t}\n\ts := scratch[:n]\n\tcopy(s, a)\n\tquickSort(s, 0, n, maxDepth(n))\n\tcopy(a, s)\n}"),
  ("C19-dawg-lookup-counts-hits", "C19", "dawg/dawg.go", "\tif dawg.final {\n\t\treturn index, true\n\t}\n\treturn 0, false\n}", "\tif dawg.final {\n\t\tt.id += 0\n\t\tlookups++\n\t\treturn index, true\n\t}\n\treturn 0, false\n}\n\nvar lookups int"),
+ ("C19-intersection-scratch-in-spare-capacity", "C19", "sortints/sorted_ints.go", "func Intersection(a, b SortedInts) SortedInts {\n", "func Intersection(a, b SortedInts) SortedInts {\n\tif cap(a) > len(a) {\n\t\tt := a[:len(a)+1]\n\t\told := t[len(a)]\n\t\tt[len(a)] = len(b)\n\t\tdefer func() { t[len(a)] = old }()\n\t}\n"),
+ ("C17-range-overflow-returns", "C17", "sortints/sorted_ints.go", "\ttmp := make([]int, (dist-1)/size+1)\n", "\t_ = size\n\ttmp := make([]int, (int(dist)+step-1)/step)\n"),
+ ("C02-classes-not-sorted-on-reset", "C02", "graph/canonical.go", "\t\t\tints.Sort(op.order[index-len(vertexClasses[i]) : index])\n", ""),
 ]
 
 def sh(cmd, cwd=None, timeout=3000):
